@@ -1120,3 +1120,28 @@ package geojson
 // MISSING: Rect.ContainsLine / ContainsPoly (bounding-box tests) versus Poly.ContainsLine / ContainsPoly of the rectangle polygon (every vertex
 // inside the convex ring) need "the stored rectangle covers every vertex" for Line (not in LineInv) and the vertex/segment-endpoint link for rings;
 // Rect.IntersectsRect (rectsMeet) versus Poly.IntersectsRect (ringIntersectsRingS: needs the exactness of the leaf risS).
+
+// ---- NewLineString: the line value is copied field by field into the fresh object
+//@ lemma lineInvCopy(L *geometry.Line, M *geometry.Line)
+//@   props C09 C11 C05
+//@   requires geometry.LineInv(L) && M != nil && M.baseSeries != nil && dyn(M.baseSeries) == typeid(*geometry.baseSeries)
+//@   have N: geometry.sNseg(M.baseSeries) == geometry.sNseg(L.baseSeries)
+//@   have S: forall j int :: geometry.sSeg(M.baseSeries, j) == geometry.sSeg(L.baseSeries, j)
+//@   requires M.baseSeries.closed == L.baseSeries.closed && M.baseSeries.clockwise == L.baseSeries.clockwise && M.baseSeries.convex == L.baseSeries.convex && M.baseSeries.indexKind == L.baseSeries.indexKind && M.baseSeries.index == L.baseSeries.index && M.baseSeries.rect == L.baseSeries.rect && M.baseSeries.points == L.baseSeries.points
+//@   ensures geometry.LineInv(M)
+//@ func NewLineString
+//@   props C09 C11 C05
+//@   arith order
+//@   requires line != nil && geometry.LineInv(line)
+//@   ret have D: dyn(lineOf(result).baseSeries) == typeid(*geometry.baseSeries)
+//@   ret use lineInvCopy(line, lineOf(result))
+//@   ret have K: isLineStringK(result)
+//@   ret have LI: geometry.LineInv(lineOf(result))
+//@   ensures Fresh: result != nil && !old($alloc)[result]
+//@   ensures Inv: ObjInv(result)
+//@   ensures NoExtra: result.extra == nil
+//@ func IsPoint
+//@   props C05
+//@   arith order
+//@   requires obj != nil ==> ObjShape(obj)
+//@   ensures ok == (isPointK(obj) || isSimplePointK(obj))
